@@ -37,6 +37,7 @@ def dispatch (line : String) : String :=
     | "addrnew" => C16.addrnewOp args
     | "addrrt" => C16.addrrtOp args
     | "envelope" => C16.envelopeOp args
+    | "envjson" => C16.envjsonOp args
     | "mailcmd" => C16.mailcmdOp args
     | "argv" => C16.argvOp args
     | "envcheck" => C16.envcheckOp args
